@@ -153,6 +153,8 @@ STATE_SNIPS = [
     "{% import 'lib3.html' as M %}{{ M.ff(zero) }}", "{% import 'lib3.html' as M %}{{ M.h(words) }}",
     # a cached module with module-level state (recorded finding C29-F3)
     "{% import 'cnt.html' as C %}{{ C.nxt() }}",
+    # a cached module holding a lazy filter result / an iterator (recorded finding C29-F4)
+    "{% from 'lazy.html' import evens %}{{ evens|list }}", "{% import 'lazy.html' as Z %}{{ Z.rows|list }}{{ Z.fixed }}",
 ]
 AUX = {
     "lib.html": "{% macro m(xs) %}[{{ xs|join(',') }}{{ gl.a }}]{% endmacro %}{% set v = gl.its|length %}",
@@ -161,10 +163,12 @@ AUX = {
     "lib3.html": "{% macro ft(x) %}{% autoescape true %}{{ 4 // x }}{{ '<t>' }}{% endautoescape %}{% endmacro %}"
                  "{% macro ff(x) %}{% autoescape false %}{{ 4 // x }}{{ '<f>' }}{% endautoescape %}{% endmacro %}"
                  "{% macro h(x) %}{{ [x, '<i>'|safe]|join }}{% endmacro %}",
+    "lazy.html": "{% set evens = range(6)|select('even') %}{% set rows = [1, 2]|map('string') %}{% set fixed = range(3)|list %}",
     "cnt.html": "{% set ns = namespace(n=0) %}{% macro nxt() %}{% set ns.n = ns.n + 1 %}{{ ns.n }}{% endmacro %}",
 }
 
 SIG_MODULE_STATE = "cached module top-level namespace mutated by its macro"
+SIG_MODULE_LAZY = "cached module top-level lazy filter result consumed by its first importer"
 SIG_MODULE_EVALCTX = "cached-module macro autoescape block (shared module eval context)"
 
 
@@ -172,6 +176,8 @@ def special_signature(src):
     """templates that exercise a recorded finding get that finding's signature"""
     if "cnt.html" in src:
         return SIG_MODULE_STATE
+    if "lazy.html" in src:
+        return SIG_MODULE_LAZY
     return None
 
 
